@@ -49,6 +49,10 @@ type Case struct {
 	// the connection): nothing leaves for them, the library sees an error in the middle of a batch of datagrams
 	FailWC []int `json:"failwc,omitempty"`
 	FailWS []int `json:"failws,omitempty"`
+	// StaleFail (DTLS 1.2): after the handshake a renumbered copy of the client's last plaintext handshake datagram
+	// reaches the server, which re-sends its final flight; the transport refuses the StaleFail[i]-th datagrams of
+	// that batch (counted from its first). With an MTU below the 12-byte body of Finished the batch spans >= 3 datagrams.
+	StaleFail []int `json:"stalefail,omitempty"`
 }
 
 func epsFor(c *Case) (cl, sv scen.EP) {
@@ -136,6 +140,37 @@ func run(c Case, r *pbt.R) {
 		p.Net.Heal()
 		exported := false
 		writeErrs := map[string]int{}
+		if hsOK && len(c.StaleFail) > 0 && !is13 {
+			var stale []byte
+			for _, ev := range p.Net.Events() {
+				if ev.From == "C" && len(ev.Data) >= 13 && ev.Data[0] == 22 && ev.Data[3] == 0 && ev.Data[4] == 0 {
+					stale = ev.Data
+				}
+			}
+			if stale != nil {
+				time.Sleep(3 * time.Second)
+				scen.Settle()
+				base := p.S.EP.Writes()
+				if p.S.EP.WriteFail == nil {
+					p.S.EP.WriteFail = map[int]bool{}
+				}
+				for _, j := range c.StaleFail {
+					p.S.EP.WriteFail[base+j] = true
+				}
+				next := uint64(0x7c0000)
+				for k := 0; k < 2; k++ {
+					p.Net.Inject("C", "S", renumber(stale, &next))
+					scen.Settle()
+				}
+				if n := p.S.EP.Writes() - base; n >= 3 {
+					r.Class("final-flight-resent-over-three-or-more-datagrams")
+				} else if n >= 2 {
+					r.Class("final-flight-resent-over-several-datagrams")
+				} else if n == 1 {
+					r.Class("final-flight-resent")
+				}
+			}
+		}
 		if hsOK {
 			p.C.StartReader()
 			p.S.StartReader()
@@ -413,6 +448,26 @@ func run(c Case, r *pbt.R) {
 	}
 }
 
+// renumber gives every plaintext (epoch 0) record of a datagram a fresh record sequence number.
+func renumber(d []byte, next *uint64) []byte {
+	out := append([]byte(nil), d...)
+	for off := 0; off+13 <= len(out); {
+		if out[off]&0xe0 == 0x20 || out[off] == 25 {
+			break
+		}
+		n := int(out[off+11])<<8 | int(out[off+12])
+		if out[off+3] == 0 && out[off+4] == 0 {
+			*next++
+			for i := 0; i < 6; i++ {
+				out[off+5+i] = byte(*next >> (8 * (5 - i)))
+			}
+		}
+		off += 13 + n
+	}
+
+	return out
+}
+
 func tailDump(p *scen.Pair) string {
 	lines := strings.Split(p.Dump(), "\n")
 	if len(lines) > 30 {
@@ -460,6 +515,19 @@ func gen(t *rapid.T) Case {
 	c.Dual = rapid.SampledFrom([]string{"", "", "", "C", "C", "S"}).Draw(t, "dual")
 	if c.CIDC > 0 {
 		c.Move = rapid.IntRange(0, 2).Draw(t, "move") == 0
+	}
+	if !is13 && c.Dual == "" && rapid.IntRange(0, 4).Draw(t, "stalefail") == 0 {
+		c.StaleFail = rapid.SliceOfNDistinct(rapid.IntRange(1, 5), 1, 2, rapid.ID[int]).Draw(t, "stalefailv")
+		// mostly below the 12-byte body of Finished (the MTU option bounds the fragment body), so that the re-sent
+		// flight is ChangeCipherSpec plus several fragments of Finished, each in its own datagram
+		if rapid.IntRange(0, 3).Draw(t, "stalemtuk") == 0 {
+			c.MTU = rapid.IntRange(12, 110).Draw(t, "stalemtu")
+		} else {
+			c.MTU = rapid.IntRange(4, 11).Draw(t, "stalemtu")
+		}
+		if c.WritersS == 0 {
+			c.WritersS = 1
+		}
 	}
 	// DTLS 1.2 only: three DTLS 1.3 cases with a refused datagram and key updates ran into the wall-clock watchdog
 	// (endpoints spinning in real time); not triaged, see DESIGN
